@@ -28,8 +28,18 @@ the random histories has its argument values remapped onto -1 / -2.  Theorems
 C09_hashed_cache_transparent_iff / C09_py_hashed_cache_refuted (model/IterHash.v) say why: a cache
 validated through any digest h of the key is invisible iff h separates the valid keys.
 
-The image-iterator half (`ImageIterator._animate`, model owned by C11) is covered here by
-paired cached / uncached runs only (impl/impl_c09_img.py): validation, not proof."""
+The image-iterator half (`ImageIterator._animate` / `_generate_frames`, model/ImgIter.v owned by C11,
+model/ImgIterSrc.v — the iterator over a stateful SOURCE — owned by C09): paired caching / non-caching
+`ImageIterator` runs (impl/impl_c09_img.py) of one history over two instances of the same source,
+judged inside Coq by model/ImgIterSrcTie.v [check9i]: both runs against the model (outcomes and the
+RENDER REQUESTS of every operation: which frame was rendered at which size during that operation), and,
+specification side, on the observations alone: the two runs agree in every outcome (an exception in one
+run where the other yields a frame is a difference like any other), and the render requests of the
+caching run are, operation by operation, a sub-list of those of the non-caching run
+(C09_imgiter_cached_requests_sub).  The SOURCE KIND is a dimension of the generator: a PIL image decoded
+from bytes, a PIL image the caller opened from a file, a file path (the iterator holds an open image of
+its own) and a URL (temp file), GIF and WebP, crossed with WHERE the image size changes: in the first
+loop, and in the later, cached loops after the first loop rendered every frame (`late_case`)."""
 from __future__ import annotations
 
 import copy
@@ -39,7 +49,7 @@ import core
 from props import c08 as base
 
 LEVEL = "proof"
-EXTRA_TARGETS = ["model/IterTie.vo", "model/IterWrapTie.vo"]
+EXTRA_TARGETS = ["model/IterTie.vo", "model/IterWrapTie.vo", "model/ImgIterSrcTie.vo"]
 N = ["next"]
 HEADER = ("From Coq Require Import List ZArith.\nImport ListNotations.\n"
           "From TI Require Import model.Iter model.IterSpec model.IterTie model.IterWrap model.IterWrapTie.\n"
@@ -472,8 +482,13 @@ def roundtrip_hits(c, r):
 
 def run(ctx):
     rng = ctx.rng
+    image_only = None
     if ctx.replay:
-        cases = [ctx.replay["replay"]["case"]]
+        rp = ctx.replay.get("replay") or {}
+        if "image_case" in rp:  # a failing ImageIterator pair: re-run that pair only
+            image_only, cases = rp["image_case"], []
+        else:
+            cases = [rp["case"]]
     else:
         ngen = 450 if ctx.quick else 6000
         nrt = 160 if ctx.quick else 2400
@@ -490,7 +505,14 @@ def run(ctx):
                  + [collide_case(val_rng, i) for i in range(ncol)])
         if not ctx.quick:
             cases += roundtrip_sweep() + collide_sweep()
-    codes, errors, impl = evaluate(cases)
+    # the draw() decisions and the image-iterator pairs are judged concurrently with the histories above
+    # (their cases are drawn first, on this thread: the random stream is the same as when run in sequence)
+    from concurrent.futures import ThreadPoolExecutor
+    side = ThreadPoolExecutor(max_workers=2)
+    img_list = [image_only] if image_only is not None else img_cases(ctx)
+    fut_img = side.submit(run_image_pairs, ctx, img_list, image_only is not None)
+    fut_draw = side.submit(run_draw_decisions, ctx) if image_only is None else None
+    codes, errors, impl = evaluate(cases) if cases else ([], [], [])
     failing = [cases[i] for i, code in enumerate(codes) if code >= 2]
     failures = []
     if failing:
@@ -565,14 +587,17 @@ def run(ctx):
                    "deterministic_frame_faults": sum(1 for c in cases if c.get("ffaults")),
                    "setting_values": vals}
     extra = {}
-    dd = run_draw_decisions(ctx)
-    extra["draw_cache_decisions"] = dd["summary"]
-    failures += dd["failures"]
-    errors += dd["errors"]
-    img = run_image_pairs(ctx)
+    if fut_draw is not None:
+        dd = fut_draw.result()
+        extra["draw_cache_decisions"] = dd["summary"]
+        failures += dd["failures"]
+        errors += dd["errors"]
+    img = fut_img.result()
+    side.shutdown()
     if img is not None:
         extra["image_iterator_pairs"] = img["summary"]
         failures += img["failures"]
+        mismatches += img["mismatches"]
         errors += img["errors"]
     distinct = {base.signature(c) for c, r in zip(cases, impl)
                 if doc_enabled(c) and base.nontrivial(c, r["cached"]) and len(r["cached"]["log"]) < len(r["uncached"]["log"])}
@@ -598,7 +623,14 @@ def run(ctx):
                 "current_okb: every yielded frame is sized, padded and rendered for the settings in force). "
                 "Non-trivial: caching enabled by the documented rule, >= 4 ops, >= 2 frames, a seek or setter, and "
                 "the cache actually saved at least one render; distinct by full case hash. "
-                "Image iterators: paired cached/uncached ImageIterator runs with set_size between frames.",
+                "Image iterators: paired caching / non-caching ImageIterator runs of one history (next / seek / "
+                "set_size / terminal resize with a dynamic size / close) over two instances of the same 2-4 frame "
+                "source, SOURCE KIND in {PIL image from bytes, PIL image opened from a file by the caller, file path, "
+                "URL (temp file)} x {GIF, WebP} x 3 styles x format specifiers; random histories, size patterns "
+                "A/B/A per pass, and histories whose FIRST LOOP COMPLETES with every frame cached before the size "
+                "changes in a later loop (late_case: 0-2 passes served from the cache, then A -> B (-> A / C), seeks, "
+                "a frame whose rendering fails at B); judged in Coq (check9i) on outcomes AND on the render "
+                "requests (frame, size) of every operation.",
         "samples": [base.describe(c) for c in cases[:2] + cases[len(CORPUS):len(CORPUS) + 2] + cases[-2:]],
         "histogram": hist,
         "mismatches": mismatches,
@@ -616,14 +648,22 @@ def run(ctx):
             "wrap_current assumes the contract of _render_ (render_honours_size: the returned frame has the "
             "requested size; true of the instrumented renderable, lemma wex_honours); padded_is_current and "
             "settings_by_history assume nothing about the renderable",
-            "the image iterator half (ImageIterator._animate) is validated by paired runs only; its model and "
-            "theorems belong to C11",
+            "image iterator half: imgiter_cache_transparent / cached_requests_sub assume renderer_ok (frames 0..n-1 "
+            "render or fail, frame n raises EOFError), deterministic rendering (fmt_frame a function of frame number "
+            "and size) and that hash() separates the rendered sizes that occur (checked at run time); the source "
+            "theorems (source_erased, kept_source_transparent) assume a source whose renders, while its invariant "
+            "holds, are that pure function; the ImgIter model is tied to the code by C11's correspondence and by "
+            "check9i here",
         ],
         "trusted": ["impl driver (impl_c09_iter.py = impl_c08.py, shared with C08, plus list-valued argument fields): "
                     "call stamps written into the render output identify the _render_ invocation that produced a "
                     "delivered frame; a list-valued field is written by the renderable as an integer code",
                     "the harness interpreter and the library's interpreter agree on hash() of ints (both CPython 64-bit; "
-                    "asserted for every colliding pair generated)"],
+                    "asserted for every colliding pair generated)",
+                    "impl_c09_img.py: render requests are observed by wrapping the instance's _render_image (frame = "
+                    "_seek_position, size = rendered_size at the call); the renderer table handed to the model is what the "
+                    "NON-caching run obtained; opened / closed PIL images are counted by wrapping Image.open / Image.close; "
+                    "from_url is served by a stub of requests.get"],
     }
 
 
@@ -661,11 +701,75 @@ def run_draw_decisions(ctx):
             "failures": failures, "errors": []}
 
 
-def run_image_pairs(ctx):
-    """Paired cached / uncached ImageIterator runs (validation only)."""
-    import os
-    if not (core.VERIF / "harness" / "impl" / "impl_c09_img.py").exists():
-        return None
+# ----------------------------------------------------------------- image iterators
+
+IMG_HEADER = ("From Coq Require Import List ZArith.\nImport ListNotations.\n"
+              "From TI Require Import model.ImgIter model.ImgIterSrc model.ImgIterSrcTie.\n"
+              "Open Scope nat_scope.\n")
+IMG_STYLES = ["block", "kitty", "iterm2"]
+IMG_SIZES = [[4, 2], [6, 3], [2, 1], [8, 4]]
+IMG_SPECS = {"block": ["", "1.1", "<10.^5"], "kitty": ["+W", "+Lz5", "+Wc9m1", "1.1+W"],
+             "iterm2": ["+W", "+L", "+Wm1c9", "+A"]}
+IMG_SOURCES = ["file", "file", "file", "url", "pil_file", "pil", "pil"]
+UNKNOWN_FRAME = 900000  # identity of a (frame, size) the non-caching run never rendered
+
+
+def img_source(rng, c):
+    """the SOURCE KIND dimension: who opened the image the iterator renders from, and from what"""
+    c["source"] = rng.choice(IMG_SOURCES)
+    c["fmt"] = rng.choice(["GIF", "GIF", "WEBP"])
+    return c
+
+
+def late_case(rng, i):
+    """The first loop renders every frame under size A (so every frame is cached) and nothing else
+    happens in it; the size changes only in a LATER loop: after j further frames to B, m frames, then
+    back to A or on to C, optionally a seek, and on to the end of that loop and into the next."""
+    n = rng.choice([2, 2, 3, 4])
+    a, b, c3 = rng.sample(IMG_SIZES, 3)
+    ops = [["size", a]] if rng.random() < 0.5 else []
+    if not ops:
+        a = [4, 2]
+        b = b if b != a else c3
+    ops += [["next"]] * n                       # the first loop, complete
+    ops += [["next"]] * rng.randint(0, 2 * n)   # 0 .. 2 loops served from the cache
+    ops += [["size", b]]
+    ops += [["next"]] * rng.randint(1, n + 1)
+    if rng.random() < 0.3:
+        ops += [["seek", rng.randrange(n)], ["next"]]
+    if rng.random() < 0.7:
+        ops += [["size", a if rng.random() < 0.6 else c3]]
+        ops += [["next"]] * rng.randint(1, n + 1)
+    if rng.random() < 0.15:
+        ops += [["close"], ["next"]]
+    style = IMG_STYLES[i % 3]
+    c = {"frames": n, "repeat": rng.choice([-1, -1, 4, 5, 7]), "style": style,
+         "cached": rng.choice([True, True, n, n + 1, 100]), "ops": ops}
+    if rng.random() < 0.4:
+        c["spec"] = rng.choice(IMG_SPECS[style])
+    if rng.random() < 0.15:  # rendering one frame fails at size B: both runs must end there alike
+        c["fail"] = [rng.randrange(n), b[0]]
+    return img_source(rng, c)
+
+
+def img_corpus():
+    """boundary cases, run first: for every source kind, one complete loop, a size change in the second
+    (cached) loop, back in the third; the same with the change in the FIRST loop; a dynamic size with a
+    terminal resize after the first loop"""
+    out = []
+    for k, (src, fmt) in enumerate([("file", "GIF"), ("file", "WEBP"), ("url", "GIF"), ("pil_file", "GIF"), ("pil", "WEBP")]):
+        style = IMG_STYLES[k % 3]
+        n = 2 + k % 2
+        out.append({"frames": n, "repeat": -1, "style": style, "cached": True, "source": src, "fmt": fmt,
+                    "ops": [["next"]] * (n + 1) + [["size", [6, 3]]] + [["next"]] * n + [["size", [4, 2]]] + [["next"]] * n})
+        out.append({"frames": n, "repeat": 3, "style": style, "cached": n, "source": src, "fmt": fmt,
+                    "ops": [["next"], ["size", [6, 3]]] + [["next"]] * (n - 1) + [["size", [4, 2]]] + [["next"]] * (2 * n + 1)})
+    out.append({"frames": 2, "repeat": 4, "style": "block", "cached": True, "source": "file", "fmt": "GIF", "dyn": True,
+                "ops": [["next"]] * 3 + [["term", [40, 12]]] + [["next"]] * 3 + [["term", [80, 30]]] + [["next"]] * 3})
+    return out
+
+
+def img_cases(ctx):
     rng = ctx.rng
     nframes = [2, 3, 4]
     cases = []
@@ -677,17 +781,16 @@ def run_image_pairs(ctx):
             if k == "next":
                 ops.append(["next"])
             elif k == "size":
-                ops.append(["size", rng.choice([[4, 2], [6, 3], [2, 1], [8, 4]])])
+                ops.append(["size", rng.choice(IMG_SIZES)])
             else:
                 ops.append(["seek", rng.randrange(n)])
-        cases.append({"frames": n, "repeat": rng.choice([1, 2, 3, -1]), "style": rng.choice(["block", "kitty", "iterm2"]),
+        cases.append({"frames": n, "repeat": rng.choice([1, 2, 3, -1]), "style": rng.choice(IMG_STYLES),
                       "cached": rng.choice([True, n - 1 if n > 1 else 1, n, n + 1]), "ops": ops})
     # size histories that RETURN to an earlier size (A, B, A, ...) once per pass, so that a cache
     # entry rewritten for another size is consulted again under the first one
-    sizes = [[4, 2], [6, 3], [2, 1], [8, 4]]
     for i in range(9 if ctx.quick else 60):
         n = rng.choice([2, 2, 3])
-        a, b = rng.sample(sizes, 2)
+        a, b = rng.sample(IMG_SIZES, 2)
         pattern = rng.choice([[a, b, a, b], [a, b, a, a], [a, b, b, a], [a, a, b, a]])
         ops = []
         for sz in pattern:
@@ -695,31 +798,140 @@ def run_image_pairs(ctx):
             ops += [["next"]] * n
             if rng.random() < 0.3:
                 ops += [["seek", rng.randrange(n)], ["next"]]
-        cases.append({"frames": n, "repeat": rng.choice([-1, 4, 5]), "style": rng.choice(["block", "kitty", "iterm2"]),
+        cases.append({"frames": n, "repeat": rng.choice([-1, 4, 5]), "style": rng.choice(IMG_STYLES),
                       "cached": rng.choice([True, n, n + 1]), "ops": ops})
     # non-default style arguments in the iterator's format specifier (a re-rendered stale entry must
     # be rendered with them too), and DYNAMIC image sizes with terminal resizes between passes
-    SPECS = {"block": ["", "1.1", "<10.^5"], "kitty": ["+W", "+Lz5", "+Wc9m1", "1.1+W"],
-             "iterm2": ["+W", "+L", "+Wm1c9", "+A"]}
     for c in cases:
         if rng.random() < 0.5:
-            c["spec"] = rng.choice(SPECS[c["style"]])
+            c["spec"] = rng.choice(IMG_SPECS[c["style"]])
     for i in range(8 if ctx.quick else 60):
         n = rng.choice([2, 2, 3])
-        style = rng.choice(["block", "kitty", "iterm2"])
+        style = rng.choice(IMG_STYLES)
         ta, tb = rng.sample([[80, 30], [40, 12], [60, 20], [30, 30]], 2)
         ops = []
         for t in rng.choice([[ta, tb, ta, tb], [ta, tb, tb, ta], [ta, ta, tb, ta]]):
             ops.append(["term", t])
             ops += [["next"]] * n
         cases.append({"frames": n, "repeat": rng.choice([-1, 4, 5]), "style": style, "dyn": True,
-                      "spec": rng.choice(SPECS[style] + [""]), "cached": rng.choice([True, n, n + 1]), "ops": ops})
-    try:
-        res = core.run_impl_parallel("impl_c09_img.py", cases)
-    except Exception as e:  # noqa: BLE001
-        return {"summary": {}, "failures": [], "errors": [f"image iterator driver failed: {e}"[:800]]}
-    failures, frames, pairs_ok = [], 0, 0
+                      "spec": rng.choice(IMG_SPECS[style] + [""]), "cached": rng.choice([True, n, n + 1]), "ops": ops})
+    # the SOURCE KIND of every case above, and the histories whose size changes come only after the
+    # first loop completed (a generator of their own: the stream of the cases above is as it was)
+    import random
+    src_rng = random.Random(ctx.seed * 1000003 + 11)
+    for c in cases:
+        img_source(src_rng, c)
+        if src_rng.random() < 0.1:
+            c["ops"] = c["ops"] + [["close"], ["next"], ["seek", 0]]
+    cases += [late_case(src_rng, i) for i in range(30 if ctx.quick else 400)]
+    return img_corpus() + cases
+
+
+def img_term(c, r):
+    """the Coq term of one image case with its two observed runs (None: a constructor failed)"""
+    if r.get("ctor") != ["ok", "ok"]:
+        return None
+    a, b = r["runs"]["cached"], r["runs"]["uncached"]
+    n, nsz = a["n"], max(1, len(r["sizes"]))
+    table = [[UNKNOWN_FRAME + 1000 * z + k for k in range(n)] for z in range(nsz)]
+    for row, rq in zip(b["rows"], b["reqs"]):
+        if row[0] == 0 and 0 <= row[2] < n and row[5] < nsz:
+            table[row[5]][row[2]] = row[1]
+        elif row[0] == 2 and rq and rq[-1][0] < n and rq[-1][1] < nsz:
+            table[rq[-1][1]][rq[-1][0]] = -1
+    ops = []
+    for o, row in zip(c["ops"], a["rows"]):
+        ops.append("Next" if o[0] == "next" else f"Seek {core.z(o[1])}" if o[0] == "seek" else "Close" if o[0] == "close"
+                   else f"SetImageSize {row[5]}")
+    zl = lambda l: core.coq_list(l, core.z)
+    rows = lambda run: core.coq_list([zl(x[:5]) for x in run["rows"]])
+    reqs = lambda run: core.coq_list([core.coq_list([f"({q[0]}, {q[1]})" for q in rq]) for rq in run["reqs"]])
+    cached = c["cached"]
+    return ("{| i9_n := %d; i9_repeat := %s; i9_cached := %s; i9_cache_on := %s; i9_file := %s; i9_table := %s; "
+            "i9_hashes := %s; i9_z0 := %d; i9_ops := %s; i9_obs_c := %s; i9_obs_u := %s; i9_req_c := %s; i9_req_u := %s |}"
+            % (n, core.z(c["repeat"]),
+               ("inl true" if cached else "inl false") if isinstance(cached, bool) else f"inr {core.z(cached)}",
+               "true" if a["cache_on"] else "false",
+               "true" if c.get("source", "pil") in ("file", "url") else "false",
+               core.coq_list([zl(x) for x in table]), zl([s[2] for s in r["sizes"]] or [0]), a["z0"],
+               core.coq_list(ops), rows(a), rows(b), reqs(a), reqs(b)))
+
+
+def img_evaluate(cases, tag="c09i"):
+    """-> (codes, errors, results): code per case as check9i gives it (2 / 3 also when the two runs did
+    not even agree on whether the iterator can be constructed)"""
+    res = core.run_impl_parallel("impl_c09_img.py", cases)
+    terms, where, codes = [], [], [0] * len(cases)
+    for k, (c, r) in enumerate(zip(cases, res)):
+        t = img_term(c, r)
+        if t is None:
+            codes[k] = 0 if r["equal"] else 2
+        else:
+            where.append(k)
+            terms.append(t)
     errors = []
+    if terms:
+        out, errors = core.coq_shards(tag, IMG_HEADER, terms, "c9img", "bad9i cases", shard=40)
+        for idx, code in out:
+            codes[where[idx]] = code
+    return codes, errors, res
+
+
+def img_shrink(c, tag="c09is"):
+    """greedy: drop one operation / simplify one parameter at a time while check9i still says >= 2"""
+    def variants(c):
+        out = []
+        for k in range(len(c["ops"])):
+            out.append(dict(c, ops=c["ops"][:k] + c["ops"][k + 1:]))
+        for key in ("spec", "fail", "dyn"):
+            if key in c:
+                out.append({k: v for k, v in c.items() if k != key})
+        if c["style"] != "block":
+            out.append(dict({k: v for k, v in c.items() if k != "spec"}, style="block"))
+        if c["cached"] is not True:
+            out.append(dict(c, cached=True))
+        if c.get("fmt") != "GIF":
+            out.append(dict(c, fmt="GIF"))
+        return out
+    for _ in range(40):
+        cands = variants(c)
+        if not cands:
+            break
+        try:
+            codes, errors, _ = img_evaluate(cands, tag)
+        except Exception:  # noqa: BLE001 — a candidate the driver cannot set up: keep what we have
+            break
+        if errors:
+            break
+        nxt = next((v for v, code in zip(cands, codes) if code >= 2), None)
+        if nxt is None:
+            break
+        c = nxt
+    return c
+
+
+def img_describe(c, r):
+    runs = r.get("runs")
+    if not runs:
+        return "constructor outcomes " + json.dumps(r.get("ctor"))
+    def show(run):
+        out = []
+        for row, exc, rq in zip(run["rows"], run["exc"], run["reqs"]):
+            what = {0: f"frame#{row[1]}", 1: "StopIteration", 2: f"raises {exc}", 4: "ok", 5: "ValueError", 6: "not-started",
+                    7: "closed", 8: "closed()", 9: "-"}[row[0]]
+            out.append(what + ("" if not rq else " renders " + ",".join(f"{q[0]}@{q[1]}" + ("(source closed)" if q[2] else "") for q in rq)))
+        return json.dumps(out)
+    return "caching run " + show(runs["cached"]) + " / non-caching run " + show(runs["uncached"])
+
+
+def run_image_pairs(ctx, cases, replaying=False):
+    """Paired caching / non-caching ImageIterator runs, judged by model/ImgIterSrcTie.v [check9i]."""
+    only = cases[0] if replaying else None
+    try:
+        codes, errors, res = img_evaluate(cases)
+    except Exception as e:  # noqa: BLE001
+        return {"summary": {}, "failures": [], "mismatches": [], "errors": [f"image iterator driver failed: {e}"[:800]]}
+    failures, frames, pairs_ok = [], 0, 0
     # hypothesis [hash_separates] of C09_imgiter_cache_transparent, validated on the rendered sizes that
     # occurred (and, in the driver, on every size of a 400 x 200 box): distinct sizes have distinct hashes.
     # Colliding rendered sizes are not reachable: a size component is positive and far below 2**61 - 1,
@@ -728,16 +940,54 @@ def run_image_pairs(ctx):
     for r in res:
         for w, h, hv in r.get("sizes", []):
             sizes[(w, h)] = hv
-    if len(set(sizes.values())) != len(sizes) or any(not r.get("hash_box_injective", True) for r in res):
+    hash_ok = len(set(sizes.values())) == len(sizes) and all(r.get("hash_box_injective", True) for r in res)
+    if not hash_ok:
         errors.append("hash(rendered_size) does not separate the rendered sizes that occur: the hypothesis of "
                       f"C09_imgiter_cache_transparent fails on {sorted(sizes)[:20]}")
+    failing = sorted((k for k, code in enumerate(codes) if code >= 2), key=lambda k: len(cases[k]["ops"]))
+    minimal = {}
+    for j, k in enumerate(failing):
+        m = img_shrink(cases[k]) if j < 2 and only is None and not errors else cases[k]
+        minimal.setdefault(core.sig(m), m)
+    if minimal:
+        keys = list(minimal)
+        c2, _, r2 = img_evaluate([minimal[s] for s in keys], "c09ir")
+        for s, code, r in zip(keys, c2, r2):
+            failures.append({"signature": s,
+                             "what": "ImageIterator with and without caching differ (or the caching one renders what the "
+                                     "other does not): " + json.dumps(minimal[s]) + " first difference at op "
+                                     + str(r.get("first_diff")) + "; " + img_describe(minimal[s], r)[:1500],
+                             "replay": {"image_case": minimal[s], "observed": r, "code": code}})
+    mismatches = [{"image_case": cases[k], "code": code} for k, code in enumerate(codes) if code == 1]
+    # distribution
+    by_source, late, late_file, rer_late, closed_src = {}, 0, 0, 0, 0
     for c, r in zip(cases, res):
         frames += r["frames"]
-        if r["equal"]:
-            pairs_ok += 1
-        else:
-            failures.append({"signature": core.sig(c), "what": "ImageIterator cached vs uncached differ: " + json.dumps(c)
-                             + " first difference at op " + str(r["first_diff"]), "replay": {"image_case": c, "observed": r}})
+        pairs_ok += bool(r["equal"])
+        src = c.get("source", "pil") + "/" + c.get("fmt", "GIF")
+        by_source[src] = by_source.get(src, 0) + 1
+        runs = r.get("runs")
+        if not runs:
+            continue
+        a = runs["cached"]
+        closed_src += a["closed_src"] + runs["uncached"]["closed_src"]
+        # a re-render in a cached loop = a request of the caching run after the operation at which it
+        # first yielded without rendering (served from the cache)
+        served = next((i for i, (row, rq) in enumerate(zip(a["rows"], a["reqs"])) if row[0] == 0 and not rq), None)
+        if served is not None:
+            n_rer = sum(1 for rq in a["reqs"][served + 1:] for q in rq if q[0] < a["n"])
+            rer_late += n_rer
+            first_size = next((i for i, o in enumerate(c["ops"]) if o[0] in ("size", "term") and i > 0
+                               and a["rows"][i][5] != a["rows"][i - 1][5]), None)
+            if n_rer and first_size is not None and first_size > served:
+                late += 1
+                late_file += c.get("source", "pil") in ("file", "url")
     return {"summary": {"pairs": len(cases), "pairs_equal": pairs_ok, "frames_compared": frames,
-                        "distinct_rendered_sizes_seen": len(sizes), "size_hash_separates_them": not errors},
-            "failures": failures, "errors": errors}
+                        "by_source_kind_and_format": dict(sorted(by_source.items())),
+                        "re_renders_in_cached_loops": rer_late,
+                        "pairs_whose_first_size_change_comes_after_the_first_cache_served_frame_and_forces_a_re_render": late,
+                        "...of_which_file_or_url_sourced": late_file,
+                        "render_requests_that_found_their_source_closed": closed_src,
+                        "pairs_ending_in_a_render_failure": sum(1 for r in res if r.get("runs") and any(row[0] == 2 for row in r["runs"]["uncached"]["rows"])),
+                        "distinct_rendered_sizes_seen": len(sizes), "size_hash_separates_them": hash_ok},
+            "failures": failures, "mismatches": mismatches, "errors": errors}
